@@ -37,6 +37,11 @@ def run(ctx, obs):
             acc_named(ctx, obs, g)
         fold_separation(ctx, obs, q)
         labels_and_copy(ctx, obs, q)
+    from ..rules.common import mean_first
+    for q in (CN, PCV):
+        if mean_first(ctx, obs, q) == 0:
+            obs.unk('MEAN-FIRST', q, 'fold means are computed by average_dataset_by', 'no averaging call found in the function')
+    log_side(ctx, obs)
     distinct_fold_indices(ctx, obs, CN)
     operand_symmetry(ctx, obs, CN)
     centring_axis(ctx, obs)
@@ -178,6 +183,37 @@ def _kernel_operands(ctx, q, r):
                 out.append((n, n.left, n.right, f'log-kernel product #{k}'))
                 k += 1
     return out
+
+
+def log_side(ctx, obs, rule='LOG-SIDE'):
+    """poisson_cv: (l_a - l_b) comes from the TRAINING folds (the mean rate over the remaining folds) and the logarithm is taken
+    of the held-out fold's rates.  Swapped, the value is the same for two folds only: log(mean over folds) is not the mean of the
+    logs.  Decided on data flow: the operand inside np.log derives from the held-out selection (no complement / setdiff), the
+    other operand from the complement."""
+    from ..rules.common import expr_sources
+    prog = ctx.prog
+    q = PCV
+    f = prog.func(q)
+    r = ctx.dep.analyze(q, data_only=True)
+    ops = [(n, a, b, what) for n, a, b, what in _kernel_operands(ctx, q, r) if what.startswith('log-kernel')]
+    if not ops:
+        obs.unk(rule, q, 'the logarithm is taken of the held-out fold', 'no `A @ log(B).T` product recognised', where(prog, f, f.node))
+        return
+
+    def side(e):
+        t = expr_sources(r, e)
+        comp = any(x.startswith('CALL:') and x.split('@')[0].split('.')[-1] in ('setdiff1d', 'delete', 'logical_not', 'invert') for x in t)
+        return 'train' if comp else 'test'
+    for n, a, b, what in ops:
+        con = f'{what}: rates from the training folds, logarithm of the held-out fold'
+        sa_, sb = side(a), side(b)
+        if (sa_, sb) == ('train', 'test'):
+            obs.ok(rule, q, con, f'`{norm(n)[:70]}`', where(prog, f, n))
+        elif (sa_, sb) == ('test', 'train'):
+            obs.bad(rule, q, con, f'`{norm(n)[:80]}` takes the logarithm of the training-fold average and the rates from the held-out fold: '
+                    f'the roles are exchanged, which changes the value for more than two folds', where(prog, f, n))
+        else:
+            obs.unk(rule, q, con, f'`{norm(n)[:70]}`: both operands come from the same side ({sa_})', where(prog, f, n))
 
 
 def distinct_fold_indices(ctx, obs, q, rule='FOLD-SEP'):
